@@ -30,7 +30,7 @@ m = {
     "hooks": {
         "guard": "verif",
         "enable": "go build -tags verif; govc loads /repo with -tags=verif (comment-only contract files internal/**/verif_contracts.go; replay-only constructors in internal/mysql/verif_hooks.go when present)",
-        "baseline_off_cmd": "cd /repo && go test -vet=off -count=1 ./...",
+        "baseline_off_cmd": ". /verif/bin/env.sh; cd /repo && go test -json -vet=off -count=1 -timeout 25m ./...",
         "source_commits": hook_commits,
         "add_only": True,
     },
